@@ -5,6 +5,7 @@ package bubble
 import (
 	"fmt"
 	"runtime"
+	"time"
 	"runtime/debug"
 	"strings"
 	"testing"
@@ -17,11 +18,16 @@ type Result struct {
 	Panic    any    // panic recovered from the root goroutine
 	Stack    string // stack of that panic
 	Msg      string
+	// Frozen: the bubble made no progress for FreezeLimit of wall-clock time and was abandoned. This is
+	// an artefact of the virtual clock (a goroutine blocked on a sync.Mutex or spinning with Gosched is
+	// not durably blocked, so virtual time cannot advance while the code it waits for needs virtual
+	// time), not a verdict about the code under test: the case is inconclusive.
+	Frozen bool
 	// Goroutines lists the stacks of the goroutines left blocked in the bubble (hang / leak diagnosis).
 	Goroutines string
 }
 
-func (r Result) OK() bool { return !r.Deadlock && !r.Leak && r.Panic == nil }
+func (r Result) OK() bool { return !r.Deadlock && !r.Leak && !r.Frozen && r.Panic == nil }
 
 func (r Result) String() string {
 	switch {
@@ -29,6 +35,8 @@ func (r Result) String() string {
 		return "deadlock: " + r.Msg + "\n" + r.Goroutines
 	case r.Leak:
 		return "leak: " + r.Msg + "\n" + r.Goroutines
+	case r.Frozen:
+		return "frozen (inconclusive): " + r.Msg
 	case r.Panic != nil:
 		return fmt.Sprintf("panic: %v\n%s", r.Panic, r.Stack)
 	}
@@ -39,7 +47,23 @@ func (r Result) String() string {
 // collect observations and assert after Run returns. Panics of other goroutines of the
 // bubble cannot be recovered and kill the process (the driver reports those from the saved
 // last-case file).
-func Run(t *testing.T, root func()) (r Result) {
+func Run(t *testing.T, root func()) Result {
+	done := make(chan Result, 1)
+	go func() { done <- run(t, root) }()
+	tm := time.NewTimer(FreezeLimit)
+	defer tm.Stop()
+	select {
+	case r := <-done:
+		return r
+	case <-tm.C:
+		return Result{Frozen: true, Msg: "no progress in wall-clock time", Goroutines: bubbleGoroutines()}
+	}
+}
+
+// FreezeLimit is the wall-clock time after which a bubble is abandoned (its goroutines leak).
+var FreezeLimit = 25 * time.Second
+
+func run(t *testing.T, root func()) (r Result) {
 	defer func() {
 		if p := recover(); p != nil {
 			s := fmt.Sprint(p)
